@@ -196,7 +196,7 @@ def harnesses(tier):
 ORACLES = [
     {'name': 'legacy CSV rule files (regex metacharacters, quotes, backslashes, every modifier kind, tags, odd names) versus their migrated merchants.rules on the real loaders and matcher, '
              'probe transactions at all modifier boundaries; string-literal decoding of regex() over an escape alphabet', 'script': 'C14.py',
-     'bound': '34 CSV rows alone + 15 multi-row files x 30 descriptions x 18 amounts x 8 dates, each file also through the real migration entry point; all strings of length <= 3 over an 8-symbol escape alphabet'},
+     'bound': '39 CSV rows alone + 23 multi-row files (+ one budget in most_specific mode) x 30 descriptions x 18 amounts x 8 dates, each file also through the real migration entry point; all strings of length <= 3 over an 8-symbol escape alphabet'},
 ]
 TRUSTED_BASE = ['pyvc symbolic executor', 'z3 5.1.0 / cvc5 1.0.3', 'CPython ast.parse for the emitted text',
                 'the meaning function of the emitted fragment (props/C14.py: comparison, and, abs, ISO date strings, month) is the documented one (C04)',
